@@ -744,6 +744,12 @@ def c11_monitor(s, a, rt):
                 pending_initial = True
         if op[0] == "activate" and cur != "-" and not pending_initial and entries:
             fails.append(f"C11: op {i} re-activation ran something: {entries[0]}")
+        if (R[2] == "err" and len(R) > 3 and R[3].startswith("notallowed:0:") and op[0] in ("activate", "send")
+                and not (op[0] == "send" and op[1] == 0)):
+            # (iv) nobody sent `__initial__`: the engine's own activation found a state stored in the meantime
+            # and must resume it (D36)
+            fails.append(f"C11: op {i} ({op[0]}): TransitionNotAllowed(__initial__) although nobody sent it: the state "
+                         f"{cur} stored before the deferred activation was not resumed")
         if pending_initial and entries:
             # the initial block comes first
             if not entries[0].startswith("T ") or (want_start is not None and entries[0] != f"T {want_start}"
